@@ -600,6 +600,9 @@ impl TxPoolServiceBuilder {
             fee_estimator: self.fee_estimator,
         };
 
+        #[cfg(feature = "verif-hooks")]
+        crate::verif::register(&service.tx_pool);
+
         let mut verify_mgr =
             VerifyMgr::new(service.clone(), self.chunk_rx, self.signal_receiver.clone());
         self.handle.spawn(async move { verify_mgr.run().await });
